@@ -286,11 +286,23 @@ def _rand_point(rng, typ):
     if typ == 1:
         return [_rnd(rng, -20, 20) for _ in range(3)]
     if typ == 2:
-        th = rng.choice([0.0, 90.0, -90.0, 45.0, 180.0]) if rng.random() < 0.1 else rng.uniform(-179, 179)
+        u = rng.random()
+        th = rng.choice([0.0, 90.0, -90.0, 45.0, 180.0]) if u < 0.1 else \
+            (rng.choice([-1, 1]) * rng.uniform(0.02, 0.3) if u < 0.16 else rng.uniform(-179, 179))
         return [_rnd(rng, 0.5, 20), th, _rnd(rng, -20, 20)]
     ph = rng.choice([0.0, 90.0, -90.0, 45.0, 135.0]) if rng.random() < 0.1 else rng.uniform(-179, 179)
     th = rng.choice([90.0, 45.0, 30.0]) if rng.random() < 0.1 else rng.uniform(5, 175)
     return [_rnd(rng, 0.5, 20), th, ph]
+
+
+def _misaligned_abc(rng, A):
+    ang = math.radians(rng.uniform(0.02, 0.3))
+    ax = np.array([rng.gauss(0, 1) for _ in range(3)])
+    ax /= np.linalg.norm(ax)
+    Kx = np.array([[0, -ax[2], ax[1]], [ax[2], 0, -ax[0]], [-ax[1], ax[0], 0]])
+    R = np.eye(3) + math.sin(ang) * Kx + (1 - math.cos(ang)) * Kx @ Kx
+    L = rng.uniform(1.0, 10.0)
+    return A, (np.array(A) + R @ np.array([0.0, 0.0, L])).tolist(), (np.array(A) + R @ np.array([L, 0.0, 0.0])).tolist()
 
 
 def _gen_cs(rng, N):
@@ -302,6 +314,10 @@ def _gen_cs(rng, N):
         reftyp = 1 if ref == 0 else cs[ref - 1]["typ"]
         while True:
             A, B, C = (_rand_point(rng, reftyp) for _ in range(3))
+            if reftyp == 1 and rng.random() < 0.15:
+                # an "as-built misalignment" system: rotated from its reference by a small, non-zero angle (0.02 .. 0.3
+                # degrees) - its transform has a diagonal within 1e-5 of 1 and is NOT the identity
+                A, B, C = _misaligned_abc(rng, A)
             a, b, c = (_to_rect(reftyp, P) for P in (A, B, C))
             ab, ac = b - a, c - a
             nab, nac = np.linalg.norm(ab), np.linalg.norm(ac)
@@ -1507,6 +1523,10 @@ def _regen_after(rng, cs):
         reftyp = 1 if s["ref"] == 0 else (cs[:1] + out)[s["ref"] - 1]["typ"]
         while True:
             A, B, C = (_rand_point(rng, reftyp) for _ in range(3))
+            if reftyp == 1 and rng.random() < 0.15:
+                # an "as-built misalignment" system: rotated from its reference by a small, non-zero angle (0.02 .. 0.3
+                # degrees) - its transform has a diagonal within 1e-5 of 1 and is NOT the identity
+                A, B, C = _misaligned_abc(rng, A)
             a, b, c = (_to_rect(reftyp, P) for P in (A, B, C))
             ab, ac = b - a, c - a
             nab, nac = np.linalg.norm(ab), np.linalg.norm(ac)
